@@ -13,6 +13,10 @@ CLAIMED = {
              note=COMMON_NOTE + ' integer-exact arithmetic model justified by range assertions inside each query (IEEE-754: exact on integer-valued doubles below 2^53); Vec2::length abstracted in perimeter.', ref='3.2'),
  'C11': dict(text='For every repetition kind and every shape up to 3x3 / 3 entries (shapes enumerated, values symbolic): count, enumerated offsets and extrema agree with the documented vector set; Repetition::transform maps every vector by m*R(c,s)*reflect with cos/sin as free symbols (one query covers all rotations); Polygon::apply_repetition yields exactly one independent translated deep copy per non-zero vector.',
              note=COMMON_NOTE + ' integer-exact model; cos/sin free integer symbols (polynomial-identity argument, DESIGN.md 2.2); replay of transform counterexamples only for axis rotations.', ref='3.4'),
+ 'C10': dict(text='Every transform entry point of Polygon, Label, Reference, FlexPath and RobustPath is executed symbolically with integer-valued geometry and cos/sin as free symbols; the solver proves that the resulting coordinates / placement fields / trafo matrix equal the documented affine composition (polynomial identities, hence valid for every rotation, magnification and translation in exact arithmetic), including width/offset/end-extension scaling and reflection signs; RobustPath from an arbitrary prior trafo, so sequences are covered inductively.',
+             note=COMMON_NOTE + ' integer-exact model; free-symbol cos/sin; outlines (transform-then-outline) are outside.', ref='3.5'),
+ 'C09': dict(text='Element bounding boxes for every repetition kind, Reference::bounding_box on a two-level hierarchy with the real Map<GeometryInfo> cache (corner shortcut and hull branch, fresh / prefilled / reused cache), and the point set Reference::repeat_and_transform feeds to the hull (all repetition offsets reached in 8 directions) are proved equal to the min/max over fully transformed, fully repeated geometry computed by the harness.',
+             note=COMMON_NOTE + ' qhull replaced by the identity hull (hull minimality/ordering not decided); is_multiple_of_pi_over_2 by contract; integer-exact model with free cos/sin.', ref='3.6'),
 }
 NA = {
 }
